@@ -257,7 +257,7 @@ class C13walk(Obligation):
 
 
 def obligations(ctx, cfg):
-    n = 3 if cfg['tier'] == 'quick' else 4
+    n = 3 if cfg['tier'] == 'quick' else 5
     from props.C09 import CreateTopic
     from props.C16 import CreateSubscription
     ct, cs = CreateTopic(), CreateSubscription(ctx, abandon=False)
